@@ -127,6 +127,12 @@ def root_terms(case, st, lf):
     slack = (2.0 ** -22) * max(err, 0) + (2.0 ** -22) * d * float(np.abs(xp).max()) + \
         64.0 * n * p * U64 * kappa + 8.0 * n * p * U32 * float(np.abs(xp).max()) * (lmax + d) \
         + 4.0 * U32 * maxev * float(np.abs(xp).max()) * case["mat_eps"]
+    if case["eigh"]:
+      # the eigh path does not report the power-iteration estimate that scales its ridge; the estimate
+      # is a Rayleigh quotient (so it lies in [lmin, lmax]) accepted once it moves by <= 1e-6 (absolute)
+      # per iteration, so for statistics of small magnitude it may sit anywhere in that interval: the
+      # ridge, and with it X^p (A + d I) - I, is known only up to mat_eps * min(lmax - lmin, 64e-6) * |X^p|
+      slack += 2.0 * case["mat_eps"] * min(lmax - lmin, 64e-6) * float(np.abs(xp).max())
     tau = 64.0 * n * p * U64 * kappa + 4 * U32
     out.append(("root", "root_cert %s %s %s %s %d%%nat %d%%nat %d%%positive (dymat %s) (dymat %s)" % (
         q(tau), q(slack), q(max(err, 0.0)), q(d), n, n, p, dymat(P), dymat(S)), j))
